@@ -14,8 +14,10 @@
 import LemoModel.Rlp
 import LemoProofs.Lemmas.RlpBytes
 import LemoProofs.Lemmas.RlpSplit
+import LemoModel.RlpSchema
+import LemoProofs.Lemmas.RlpSchemaLemmas
 namespace LemoProofs.C14
-open LemoModel.Rlp LemoProofs.RlpBytes LemoProofs.RlpSplit
+open LemoModel.Rlp LemoModel.RlpSchema LemoProofs.RlpBytes LemoProofs.RlpSplit LemoProofs.RlpSchemaLemmas
 
 /-! ### unfolding the well-founded list loop -/
 
@@ -491,6 +493,168 @@ theorem encode_needs_bound (b : List UInt8) (hb : b.length = 2 ^ 64) :
   simp only [Nat.sub_self, List.take_zero, List.drop_zero, if_true, decodeList_nil]
   intro h
   cases h
+
+/-! ### typed layer: structs of uint / byte-string / fixed-array / big.Int / slice fields -/
+
+/-- typed decoding of bytes = generic decoding, then the per-type checks of the schema -/
+def decodeTyped (s : Schema) (b : List UInt8) : Option Val :=
+  match decode b with
+  | .ok it => decodeS s it
+  | .error _ => none
+
+def encodeTyped (s : Schema) (v : Val) : Option (List UInt8) := (encodeS s v).map encode
+
+/-- **schema_roundtrip**: a well-typed value decodes from its own encoding to itself — for every schema,
+    `rlp:"nil"` pointers included. -/
+theorem schema_roundtrip {s : Schema} {v : Val} {b : List UInt8}
+    (h : encodeTyped s v = some b) (hb : b.length < 2 ^ 64) : decodeTyped s b = some v := by
+  unfold encodeTyped at h
+  cases he : encodeS s v with
+  | none => rw [he] at h; cases h
+  | some it =>
+    rw [he] at h
+    simp only [Option.map_some, Option.some.injEq] at h
+    subst h
+    unfold decodeTyped
+    rw [decode_encode it hb]
+    exact decodeS_encodeS v s it he
+
+/- Full statement wanted by C14 ("re-encoding the decoded value yields the original bytes"):
+     ∀ s b v, decodeTyped s b = some v → encodeTyped s v = some b
+   It is FALSE for the code as it is: a `rlp:"nil"` pointer field accepts the empty *list* 0xC0 as nil
+   but nil is written as the empty *string* 0x80 (`schema_reencode_refuted`, `tx_reencode_refuted`).
+   It holds for every schema without such a field: -/
+
+/-- **schema_reencode_partial**: without `rlp:"nil"` fields, whatever the typed decoder accepts
+    re-encodes to exactly the accepted bytes. -/
+theorem schema_reencode_partial {s : Schema} {v : Val} {b : List UInt8} (hs : noOpt s = true)
+    (h : decodeTyped s b = some v) : encodeTyped s v = some b := by
+  unfold decodeTyped at h
+  split at h
+  · rename_i it hd
+    unfold encodeTyped
+    rw [encodeS_decodeS it s v hs h]
+    simp only [Option.map_some, Option.some.injEq]
+    exact canonical hd
+  · cases h
+
+/-- the exact guard for a `rlp:"nil"` field: everything except the empty list re-encodes identically -/
+theorem optFixed_reencode_partial {n : Nat} {it : Item} {v : Val} (hn : 0 < n)
+    (h : decodeS (.optFixed n) it = some v) (hne : it ≠ .list []) : encodeS (.optFixed n) v = some it := by
+  cases it with
+  | bytes b =>
+    simp only [decodeS] at h
+    split at h
+    · rename_i hb
+      cases h
+      have : b = [] := by cases b with
+        | nil => rfl
+        | cons a t => simp at hb
+      subst this; simp [encodeS]
+    · split at h
+      · rename_i hl
+        cases h
+        simp [encodeS, hl, hn]
+      · cases h
+  | list xs =>
+    simp only [decodeS] at h
+    split at h
+    · rename_i hx
+      have : xs = [] := by cases xs with
+        | nil => rfl
+        | cons a t => simp at hx
+      subst this
+      exact absurd rfl hne
+    · cases h
+
+/-- refutation of the full statement on the model: 0xC0 in a `rlp:"nil"` position -/
+theorem schema_reencode_refuted :
+    decodeS (.optFixed 20) (.list []) = some .nil ∧ encodeS (.optFixed 20) .nil = some (.bytes []) ∧
+    encode (.bytes []) = [0x80] ∧ encode (.list []) = [0xC0] := by
+  refine ⟨rfl, rfl, by decide, by decide⟩
+
+/-- a complete transaction body whose `to` field is the empty list -/
+def txWitness : Item :=
+  .list [.bytes [1], .bytes [1], .bytes [7], .bytes (List.replicate 20 1), .bytes [], .list [], .bytes [],
+         .bytes [2], .bytes [100], .bytes [], .bytes [5], .bytes [1, 2], .bytes [3, 232], .bytes [],
+         .list [], .list []]
+
+/-- the transaction decoder accepts `txWitness`, and the decoded transaction encodes to different bytes -/
+theorem tx_reencode_refuted :
+    ∃ v it', decodeS txSchema txWitness = some v ∧ encodeS txSchema v = some it' ∧ encode it' ≠ encode txWitness := by
+  refine ⟨_, _, rfl, rfl, ?_⟩
+  simp (disch := decide) only [toBE_fromBE]
+  decide
+
+theorem consensus_schemas_noOpt :
+    noOpt headerSchema = true ∧ noOpt deputyNodeSchema = true ∧ noOpt blockConfirmSchema = true ∧
+    noOpt blockConfirmsSchema = true ∧ noOpt handshakeSchema = true ∧ noOpt eventSchema = true ∧
+    noOpt assetEquitySchema = true ∧ noOpt txSchema = false := by decide
+
+/-- instances: wire header (`rlpHeader`), deputy node, confirm / confirms / handshake messages, event, equity -/
+theorem header_reencode {v : Val} {b : List UInt8} (h : decodeTyped headerSchema b = some v) :
+    encodeTyped headerSchema v = some b := schema_reencode_partial (by decide) h
+theorem deputyNode_reencode {v : Val} {b : List UInt8} (h : decodeTyped deputyNodeSchema b = some v) :
+    encodeTyped deputyNodeSchema v = some b := schema_reencode_partial (by decide) h
+theorem blockConfirm_reencode {v : Val} {b : List UInt8} (h : decodeTyped blockConfirmSchema b = some v) :
+    encodeTyped blockConfirmSchema v = some b := schema_reencode_partial (by decide) h
+theorem blockConfirms_reencode {v : Val} {b : List UInt8} (h : decodeTyped blockConfirmsSchema b = some v) :
+    encodeTyped blockConfirmsSchema v = some b := schema_reencode_partial (by decide) h
+theorem handshake_reencode {v : Val} {b : List UInt8} (h : decodeTyped handshakeSchema b = some v) :
+    encodeTyped handshakeSchema v = some b := schema_reencode_partial (by decide) h
+theorem tx_roundtrip {v : Val} {b : List UInt8} (h : encodeTyped txSchema v = some b) (hb : b.length < 2 ^ 64) :
+    decodeTyped txSchema b = some v := schema_roundtrip h hb
+
+/-! ### `Header` on top of `rlpHeader`: elision of the empty transaction / change-log root -/
+
+theorem bytesToHash_32 {h : List UInt8} (hl : h.length = 32) : bytesToHash h = h := by
+  unfold bytesToHash
+  simp [hl]
+
+/-- a header root survives the round trip (`E` = `merkle.EmptyTrieHash`, any 32-byte constant) -/
+theorem root_roundtrip (E h : List UInt8) (hl : h.length = 32) :
+    decRoot E (encRoot E h) = h := by
+  unfold encRoot decRoot
+  by_cases he : h = E
+  · rw [if_pos he]; simp [he]
+  · rw [if_neg he]
+    have : h.isEmpty = false := by cases h with
+      | nil => simp at hl
+      | cons a t => rfl
+    simp [this, bytesToHash_32 hl]
+
+/- Full statement: ∀ b, encRoot E (decRoot E b) = b.  FALSE for the code as it is (`root_reencode_refuted_*`):
+   `DecodeRLP` takes *any* byte string for TxRoot/LogRoot.  Exact guard: -/
+theorem root_reencode_partial (E b : List UInt8)
+    (hb : b = [] ∨ (b.length = 32 ∧ b ≠ E)) : encRoot E (decRoot E b) = b := by
+  unfold encRoot decRoot
+  cases hb with
+  | inl h => subst h; simp
+  | inr h =>
+    have : b.isEmpty = false := by cases b with
+      | nil => simp at h
+      | cons a t => rfl
+    simp [this, bytesToHash_32 h.1, h.2]
+
+/-- a 1-byte root is accepted and comes back as 32 bytes -/
+theorem root_reencode_refuted_short (E : List UInt8) (hE : E ≠ bytesToHash [1]) :
+    encRoot E (decRoot E [1]) ≠ [1] := by
+  unfold encRoot decRoot
+  simp only [List.isEmpty_cons, Bool.false_eq_true, if_false]
+  rw [if_neg (fun h => hE h.symm)]
+  decide
+
+/-- the empty root written out explicitly (32 bytes) is accepted and comes back elided -/
+theorem root_reencode_refuted_explicit (E : List UInt8) (hE : E.length = 32) :
+    encRoot E (decRoot E E) ≠ E := by
+  unfold encRoot decRoot
+  have hne : E.isEmpty = false := by cases E with
+    | nil => simp at hE
+    | cons a t => rfl
+  simp only [hne, Bool.false_eq_true, if_false, bytesToHash_32 hE, if_true]
+  intro h
+  rw [← h] at hE
+  simp at hE
 
 /-! ### the decoder really rejects the non-canonical forms (concrete witnesses, tests not theorems) -/
 
